@@ -55,6 +55,8 @@ func main() {
 		cmdRangeTrace(os.Args[2], os.Args[3], atoi(os.Args[4]))
 	case "rangeone":
 		cmdRangeOne(os.Args[2], os.Args[3], os.Args[4], os.Args[5], os.Args[6], os.Args[7])
+	case "fmdprobe":
+		cmdFmdProbe(atoi(os.Args[2]))
 	case "script":
 		cmdScript(os.Args[2])
 	default:
